@@ -225,7 +225,10 @@ def _verdict(lams, D, usable, n):
     if e_last >= n - K_THR:
         return e_last, True, [e_last]
     if len(idx) < 3:
-        return e_last, False, [e_last]
+        # a single low reading cannot be told from the pre-asymptotic approach to n (thorough-tier runs showed 3.69-3.74
+        # and 2.39 on correct code with the next, sub-threshold, lambdas at 3.9 / 2.8-2.9): undecided, not a violation;
+        # a genuine lower-order term makes D larger and leaves more usable lambdas
+        return None
     e_prev = loc(idx[-3], idx[-2])
     rich = 2.0 * e_last - e_prev
     ok = e_last > e_prev and rich >= n - K_THR
